@@ -14,6 +14,7 @@ import (
 	"runtime/pprof"
 	"sort"
 	"strings"
+	"sync"
 	"time"
 
 	"net/url"
@@ -260,6 +261,44 @@ func pubWorld() *fedi.Net {
 	dup["attributedTo"] = []any{h1 + "/users/alice", h1 + "/users/alice", h1 + "/users/alice"}
 	n.Serve(dup)
 	return n
+}
+
+// renderStorm: free-running only. Eight goroutines construct posts (each with two embedded
+// authors that have HTML bios, typed attachments and replies) and render them in full and
+// as previews, with media types and content that differ per goroutine and round.
+func renderStorm(rounds int) {
+	var wg sync.WaitGroup
+	for g := 0; g < 8; g++ {
+		g := g
+		wg.Add(1)
+		go func() {
+			defer wg.Done()
+			for i := 0; i < 6*rounds; i++ {
+				mt := fmt.Sprintf("image/x-%d-%d", g, i)
+				bio := fmt.Sprintf("<p>bio %d</p><ul><li>one %d</li><li><b>two</b></li></ul><blockquote>quote <i>%d</i></blockquote><pre>a\nb</pre>", g, i, g)
+				author := func(n string) M {
+					return M{"type": "Person", "name": n, "preferredUsername": n, "summary": bio, "mediaType": "text/html",
+						"icon": M{"type": "Image", "url": "https://m.example/" + n, "mediaType": mt}}
+				}
+				doc := M{"type": "Note", "name": fmt.Sprintf("title %d", i), "content": bio + "<h2>head</h2><a href=\"https://l.example/x\">link</a>", "mediaType": "text/html",
+					"attributedTo": []any{author("a"), author("b")},
+					"attachment":   []any{M{"type": "Link", "href": "https://m.example/att", "mediaType": mt}, M{"type": "Link", "href": "https://m.example/att2", "mediaType": "Video/" + mt}},
+					"replies":      M{"type": "Collection", "items": []any{M{"type": "Note", "content": bio}, M{"type": "Note", "content": "<ul><li>r</li></ul>"}}}}
+				item := pub.New(doc, nil)
+				if t, ok := item.(pub.Tangible); ok {
+					_ = t.String(40 + g)
+					_ = t.Preview(30 + g)
+					if ch := t.Children(); ch != nil {
+						kids, _, _ := ch.Harvest(2, 0)
+						for _, k := range kids {
+							_ = k.String(20 + g)
+						}
+					}
+				}
+			}
+		}()
+	}
+	wg.Wait()
 }
 
 // tagItem is a constructor for Collection.Harvest that only resolves the reference (one
@@ -652,6 +691,10 @@ func main() {
 				guarded(sc.Name, func() { runPub(sc, nil) })
 			}
 		}
+		// many items constructed and rendered at the same time on real goroutines: package-level
+		// scratch buffers and unsynchronised caches anywhere below pub (ansi, style, mime,
+		// object, the renderers) are what this body is for
+		guarded("R1-render-storm", func() { renderStorm(*raceRounds) })
 		fmt.Println("race-bodies: done")
 		return
 	}
